@@ -479,10 +479,28 @@ def features(f, s, ja):
 
 
 # ------------------------------------------------------------------ run
-def run(ctx):
+class Reporter:
+    """at most CAP replay files per signature; the rest are counted"""
+    CAP = 12
+
+    def __init__(self, ctx):
+        self.ctx, self.seen, self.suppressed = ctx, {}, 0
+
+    def violation(self, sig, detail, found=True):
+        self.seen[sig] = self.seen.get(sig, 0) + 1
+        if self.seen[sig] > self.CAP:
+            self.suppressed += 1
+            return
+        self.ctx.violation(sig, detail, found=found)
+
+
+def run(ctx0):
+    ctx = Reporter(ctx0)
+    ctx.tier, ctx.rng, ctx.replay_case, ctx.impl, ctx.coq, ctx.coverage = (
+        ctx0.tier, ctx0.rng, ctx0.replay_case, ctx0.impl, ctx0.coq, ctx0.coverage)
     tier = ctx.tier
     n_ft = 300 if tier == "quick" else 5000
-    n_gg = 30 if tier == "quick" else 600
+    n_gg = 30 if tier == "quick" else 400
     if ctx.replay_case:
         cases = [ctx.replay_case["detail"]["case"]]
     else:
@@ -602,5 +620,6 @@ def run(ctx):
                 "all reachable non-terminal states (cap 40 quick / 60 thorough) + the terminal state x 25 joint actions. distinct = structural hash of (tables, expression) "
                 "resp. (layout, parameters, state, joint action) for non-terminal non-goal states (non-trivial = a real move is computed)",
         "samples": sample,
-        "input_features": feats, "ft_shapes": shapes, **counters,
+        "input_features": feats, "ft_shapes": shapes, "violations_not_written": ctx.suppressed,
+        "violation_counts": dict(ctx.seen), **counters,
     })
